@@ -38,13 +38,17 @@ pub static FAULT_PAYLOAD: AtomicU32 = AtomicU32::new(0);
 pub static PRED_IDS: [AtomicU64; 2] = [AtomicU64::new(u64::MAX), AtomicU64::new(u64::MAX)];
 /// how flat_map expansions are produced: 0 = a container built inside the closure (all children exist when it
 /// returns), 1 = a lazy iterator (a child comes into existence when `next()` asks for it), 2 = a lazy iterator that
-/// never ends (its children cycle through all 64 slots, so every expansion contains elements of every slot)
+/// never ends (its children cycle through all 64 slots, so every expansion contains elements of every slot),
+/// 3 = lazy; elements whose slot is a multiple of 4 expand to LONG_EXPANSION children (exact size hint),
+/// 4 = lazy; those elements expand to INEXACT_EXPANSION children and the size hint announces only 3/4 of them
 pub static EXP_MODE: AtomicU32 = AtomicU32::new(0);
 /// children handed out by expansions (all modes)
 pub static EXP_PRODUCED: AtomicU64 = AtomicU64::new(0);
 /// an expansion was advanced more than RUNAWAY_LIMIT times (it then ends, so that the execution terminates)
 pub static EXP_RUNAWAY: AtomicBool = AtomicBool::new(false);
 pub const RUNAWAY_LIMIT: u32 = 5_000;
+pub const LONG_EXPANSION: u32 = 70_000;
+pub const INEXACT_EXPANSION: u32 = 2_000;
 /// number of children of an endless expansion the reference model looks at (every slot occurs among them)
 pub const ENDLESS_MODEL_CHILDREN: u32 = 70;
 
@@ -106,8 +110,11 @@ pub fn keep(stage: u8, slot: u8) -> bool {
     (FMASK[stage as usize].load(SeqCst) >> (slot & 63)) & 1 == 1
 }
 pub fn n_children(stage: u8, slot: u8) -> u32 {
-    if EXP_MODE.load(SeqCst) == 2 {
-        return ENDLESS_MODEL_CHILDREN;
+    match EXP_MODE.load(SeqCst) {
+        2 => return ENDLESS_MODEL_CHILDREN,
+        3 if slot % 4 == 0 => return LONG_EXPANSION,
+        4 if slot % 4 == 0 => return INEXACT_EXPANSION,
+        _ => {}
     }
     ((EXPAND[stage as usize].load(SeqCst) >> (2 * (slot as u32 & 31))) & 3) as u32
 }
@@ -193,7 +200,7 @@ pub fn f<I: Item>(stage: u8) -> impl Fn(&I) -> bool + Clone + Send + Sync {
 /// The expansion a flat_map closure returns (see EXP_MODE).
 pub enum Exp {
     Eager(std::vec::IntoIter<Tok>),
-    Lazy { stage: u8, id: u64, slot: u8, k: u32, n: u32 },
+    Lazy { stage: u8, id: u64, slot: u8, k: u32, n: u32, inexact: bool },
 }
 
 impl Iterator for Exp {
@@ -201,10 +208,10 @@ impl Iterator for Exp {
     fn next(&mut self) -> Option<Tok> {
         let out = match self {
             Exp::Eager(it) => it.next(),
-            Exp::Lazy { stage, id, slot, k, n } => {
+            Exp::Lazy { stage, id, slot, k, n, .. } => {
                 if *k >= *n {
                     None
-                } else if *k >= RUNAWAY_LIMIT {
+                } else if *k >= RUNAWAY_LIMIT && *n == u32::MAX {
                     EXP_RUNAWAY.store(true, SeqCst);
                     *n = 0;
                     None
@@ -224,6 +231,7 @@ impl Iterator for Exp {
         match self {
             Exp::Eager(it) => it.size_hint(),
             Exp::Lazy { k, n, .. } if *n == u32::MAX => (usize::MAX, None),
+            Exp::Lazy { k, n, inexact: true, .. } => (((*n - *k.min(n)) as usize * 3) / 4, None),
             Exp::Lazy { k, n, .. } => ((*n - *k.min(n)) as usize, Some((*n - *k.min(n)) as usize)),
         }
     }
@@ -239,8 +247,9 @@ pub fn x<I: Item>(stage: u8) -> impl Fn(I) -> Exp + Clone + Send + Sync {
                 let v: Vec<Tok> = (0..n).map(|k| Tok::new(label(stage, id, k), child_slot(slot, k))).collect();
                 Exp::Eager(v.into_iter())
             }
-            1 => Exp::Lazy { stage, id, slot, k: 0, n: n_children(stage, slot) },
-            _ => Exp::Lazy { stage, id, slot, k: 0, n: u32::MAX },
+            1 | 3 => Exp::Lazy { stage, id, slot, k: 0, n: n_children(stage, slot), inexact: false },
+            4 => Exp::Lazy { stage, id, slot, k: 0, n: n_children(stage, slot), inexact: true },
+            _ => Exp::Lazy { stage, id, slot, k: 0, n: u32::MAX, inexact: false },
         };
         drop(x);
         out
